@@ -517,9 +517,17 @@ func (h *Hashgraph) updateAncestorFirstDescendant(event *Event) error {
 				// Stopping condition. We don't want to go all the way down to
 				// the bottom of the hashgraph (which could happen if the event
 				// is from a new participant). So we stop at the ancestors that
-				// are witnesses.
-				if w, err := h.witness(ah); err == nil && w {
-					break
+				// are witnesses. Only what DivideRounds has already recorded
+				// for the ancestor is used: computing its round here would
+				// memoise a value derived from the witnesses registered so
+				// far, which depends on how insertions and consensus passes
+				// are interleaved.
+				if a.round != nil {
+					if ri, err := h.Store.GetRound(*a.round); err == nil {
+						if re, ok := ri.CreatedEvents[ah]; ok && re.Witness {
+							break
+						}
+					}
 				}
 				ah = a.SelfParent()
 			} else {
